@@ -52,6 +52,9 @@ def _case():
     return st.fixed_dictionaries(dict(
         cfg=weighted(_CFG_W),
         transfers=st.lists(_transfer(), min_size=1, max_size=4),
+        # long runs: extra full packets in the first transfer, so that the 5-bit sequence number wraps (31 -> 0)
+        # once or twice within one case (only applied to the small max-packet sizes, see materialize)
+        long=weighted([(0, 9), (28, 1), (31, 1), (34, 1), (66, 1)]),
         sdelay=weighted([(0, 3), (3, 1), (10, 1), (30, 2), (60, 1)]),
         sgaps=st.lists(weighted([(0, 6), (1, 2), (4, 1), (13, 1)]), min_size=1, max_size=6),
         tp_delay=weighted([(0, 2), (1, 2), (3, 1), (8, 1)]),
@@ -72,8 +75,10 @@ def materialize(case):
     """-> (mps, endpoint number, transfers with concrete bytes, stream word gaps)"""
     mps, ep = CONFIGS[case["cfg"]]
     trs = []
-    for tr in case["transfers"]:
+    for i, tr in enumerate(case["transfers"]):
         n = tr["k"] * mps + tr["r"]
+        if i == 0 and mps <= 64:
+            n += case.get("long", 0) * mps
         if n <= 0:
             n = max(1, mps + tr["r"])
         if not tr["last"]:
@@ -95,7 +100,8 @@ class InEndpointSub(Sub):
     shrink_budget = 100
     rule = ("closed-loop histories of SuperSpeedStreamInEndpoint(max_packet_size 16/32/64/1024) against a legal "
             "host BFM (IN requests, ACK-and-continue, ACK-and-stop, retry requests, NRDY/ERDY flow control, stray "
-            "TPs for other endpoints), a stream producer (1..4 chunks of k*mps+r bytes with/without `last`, gaps), "
+            "TPs for other endpoints), a stream producer (1..4 chunks of k*mps+r bytes with/without `last`, gaps; one "
+            "case in four runs 28..66 extra full packets so that the 5-bit sequence number wraps), "
             "a TP-generator model and a back-pressuring packet transmitter; oracle over the event log: every IN "
             "request is answered by the next expected packet of the reference packetisation (same bytes, host's "
             "expected sequence number, matching length/endpoint fields) if that packet was complete, by NRDY if "
@@ -280,6 +286,8 @@ def judge(bfm, expected, mps, ep):
     if any(0 < len(p["data"]) <= 4 for p in expected):
         labels.add("one-word-packet")
     labels.add(f"mps={mps}")
+    if acked > 32:
+        labels.add("sequence-number-wrapped")
     nt = acked >= 3 and n_erdy > 0 and (n_retry > 0 or n_zlp > 0)
     return Result(ok=True, nontrivial=nt, labels=tuple(sorted(labels)))
 
